@@ -307,6 +307,8 @@ func unmarshal(bytes []byte, s reflect.Value) error {
 				if u, ok := f.Interface().(Unmarshaler); ok {
 					if p, err := u.UnmarshalUT0311L0x(bytes[offset:]); err == nil && p != nil {
 						f.Set(reflect.ValueOf(p))
+					} else {
+						f.Set(reflect.Zero(f.Type())) // 'no value': don't leave a value from an earlier message in a reused struct
 					}
 					continue
 				}
